@@ -50,6 +50,7 @@ def gen_provisions(rng, W, ind, depth, out, provs, used_nums):
             for _try in range(20):
                 tmp = []
                 gen.gen_block(rng, W, ind + 1, depth + 3, tmp, False)
+                tmp = [l.replace('\x01', ' ') for l in tmp]      # (no multi-line remarks here: provisions are cut out line by line)
                 first = tmp[0]
                 if (len(first) - len(first.lstrip(' '))) == 2 * (ind + 1) and not any(('FOOTNOTE' in l or 'QUOTE' in l) for l in tmp):
                     out.extend(tmp); break
